@@ -11,9 +11,9 @@ mro merge  L            ->  ok 1,2,3 | reject          (pydoctor  mro._merge)
 mro pmerge L            ->  ok 1,2,3 | reject          (CPython   pmerge)
 mro pd H                ->  answers for classes 1..n-1 joined by `|`:  1,2 or reject   (mro.mro)
 mro py H                ->  same, CPython `mro_implementation` with the implicit `object` (= 0)
-mro full H SUB EXT OWN DOC  ->  per class 1..n-1 not in EXT:
+mro full H SUB EXT OWN DOC EMPTY ->  per class 1..n-1 not in EXT:
                             <_mro>:<number of 'mro' reports>:<find('m') owner or ->:<doc source, - (none) or x (class has no m)>
-mro pyfull H SUB EXT OWN DOC ->  per class 1..n-1: <__mro__ or reject>:<lookup owner or ->:<doc source, - (none) or x (class has no m)>:<inspect.getdoc source>
+mro pyfull H SUB EXT OWN DOC EMPTY ->  per class 1..n-1: <__mro__ or reject>:<lookup owner or ->:<doc source, - (none) or x (class has no m)>:<inspect.getdoc source>
 ```
 mro uses H SUB EXT STD CONT FUNC HID ORDER PH -> per class not in EXT, fields joined by `:`:
                             mro(False,True) : mro(True,False) : mro(False,False) : mro(True) while _mro is None :
@@ -29,7 +29,8 @@ mro second SC RAW INIT EXP RES TRIG -> `_finalbaseobjects` per class (N = not se
                             INIT `_initialbaseobjects` (0 = None), EXP what `_initialbases` denote (0 = no class), RES triples scope,name,class
 SUB = per class, per base: 1 if the base is written as a subscript (`A[T]`), else 0;
 EXT = classes that are external (unresolved string bases such as `typing.Generic`), OWN = classes
-defining member `m`, DOC = classes whose `m` has a docstring. -/
+defining member `m`, DOC = classes whose `m` has a docstring (`__doc__ is not None`), EMPTY = those of DOC whose
+docstring is empty or blank (inspect.getdoc then returns '' and its source cannot be read off: shown as `e`). -/
 namespace Mro
 
 def parseLists (tok : String) : Option (List (List Nat)) :=
@@ -70,7 +71,7 @@ def handle (args : List String) : String :=
     | some hs =>
       "|".intercalate ((classesOf hs).map fun c => showRes (PyMro.mro (PyMro.withObject (basesOf hs)) c))
     | none => "bad-op"
-  | ["full", h, sb, e, o, d] =>
+  | ["full", h, sb, e, o, d, _em] =>
     match parseLists h, parseLists sb, Proto.natList e, Proto.natList o, Proto.natList d with
     | some hs, some sbs, some es, some os, some ds =>
       let ext := fun c => es.contains c
@@ -82,9 +83,9 @@ def handle (args : List String) : String :=
         Proto.showNatList r.1 ++ ":" ++ toString r.2.length ++ ":" ++ showOpt (find bases ext owns c 0)
           ++ ":" ++ (if owns c 0 then showOpt (getDocstring bases ext owns hasDoc c 0) else "x"))
     | _, _, _, _, _ => "bad-op"
-  | ["pyfull", h, sb, e, o, d] =>
-    match parseLists h, parseLists sb, Proto.natList e, Proto.natList o, Proto.natList d with
-    | some hs, some sbs, some es, some os, some ds =>
+  | ["pyfull", h, sb, e, o, d, em] =>
+    match parseLists h, parseLists sb, Proto.natList e, Proto.natList o, Proto.natList d, Proto.natList em with
+    | some hs, some sbs, some es, some os, some ds, some ems =>
       let bases := PyMro.withObject (fun c => PyMro.mroEntries (fun b => es.contains b) (rawOf hs sbs c))
       let owns := fun c (_ : Nat) => os.contains c
       let hasDoc := fun c (_ : Nat) => ds.contains c
@@ -93,8 +94,12 @@ def handle (args : List String) : String :=
         | none => "reject"
         | some l => Proto.showNatList l ++ ":" ++ showOpt (PyMro.lookup bases owns c 0)
           ++ ":" ++ (if owns c 0 then showOpt (PyMro.docSource bases owns hasDoc c 0) else "x")
-          ++ ":" ++ (if owns c 0 then showOpt (PyMro.inspectGetdoc bases owns hasDoc c 0) else "x"))
-    | _, _, _, _, _ => "bad-op"
+          ++ ":" ++ (if owns c 0 then
+              (match PyMro.inspectGetdoc bases owns hasDoc c 0 with
+               | some o => if ems.contains o then "e" else toString o     -- the text is empty: its source is not observable
+               | none => "-")
+            else "x"))
+    | _, _, _, _, _, _ => "bad-op"
   | ["uses", h, sb, e, st, ct, fn, hd, od, ph] =>
     match parseLists h, parseLists sb, Proto.natList e, Proto.natList st, parseLists ct, parseLists fn,
         Proto.natList hd, Proto.natList od, Proto.natList ph with
